@@ -139,6 +139,13 @@ let dispatch fn args = match fn, args with
         | _ -> failwith "kind") in
     (match write_iobj (bool_of_str keyed) (encryptBytes c []) (encryptStream c []) (bool_of_str to_os) io with
      | Ok e -> "ok:" ^ show_emitted e | Err -> "err")
+  (* reader: crypt-filter / empty / unencrypted-metadata decision + stream decryption (RC4) *)
+  | "readStream", [tree; filters; raw; emd; obj; gen; key; r] ->
+    let c = cparams_of ~aenc:ident_fn ~adec:ident_fn key "false" r obj gen in
+    (match read_emitted (decryptBytes c) (decryptStream c) (bool_of_str emd) (names_of filters)
+             (EmTopStream (parse_dict tree, bytes_of_hex raw)) with
+     | Ok (IStream (_, _, raw')) -> "ok:" ^ hex_of_bytes raw'
+     | Ok _ -> "ok:?" | Err -> "err")
   | "permBytes", [p] -> res_bytes (permissionBytes (z_of_hex p))
   | "permsBlock", [p; emd] -> res_bytes (permsBlock (z_of_hex p) (bool_of_str emd))
   | "validatePerms", [block; p; emd] ->
